@@ -27,6 +27,16 @@ def cmp_ok(op, a, b):
     return {"<": a < b, "<=": a <= b, "=": a == b, "==": a == b, ">=": a >= b, ">": a > b, "!=": a != b, "": a == b}[op]
 
 
+def _join(rnd, parts, op):
+    """join with optional blanks; no blank directly after a value (the scanner takes
+    a blank that follows a date or number into the value token)"""
+    out = parts[0]
+    for p in parts[1:]:
+        lead = rnd.choice(["", " "]) if out.endswith(")") else ""
+        out += lead + op + rnd.choice(["", " "]) + p
+    return out
+
+
 class Atom:
     def __init__(self, kind, op, val, txt):
         self.kind, self.op, self.val, self.txt = kind, op, val, txt
@@ -79,7 +89,7 @@ class And:
             if isinstance(x, Or) or (isinstance(x, And) and True):
                 t = "(" + t + ")"
             parts.append(t)
-        return (rnd.choice(["", " "]) + "&&" + rnd.choice(["", " "])).join(parts)
+        return _join(rnd, parts, "&&")
 
     def atoms(self):
         return sum(x.atoms() for x in self.xs)
@@ -99,7 +109,7 @@ class Or:
             if isinstance(x, Or) or (isinstance(x, And) and rnd.random() < 0.3):
                 t = "(" + t + ")"
             parts.append(t)
-        return (rnd.choice(["", " "]) + "||" + rnd.choice(["", " "])).join(parts)
+        return _join(rnd, parts, "||")
 
     def atoms(self):
         return sum(x.atoms() for x in self.xs)
